@@ -326,6 +326,16 @@ theorem maskBit_entryAt (c : Cache) (t : Tok) (j : Nat) :
   · subst h0; simp
   · simp only [h0, if_false, Option.filter]
 
+theorem maskBitE_entryAt (en : Bool) (c : Cache) (t : Tok) (j : Nat) :
+    (if maskBitE en c t j then entryAt c j else none) = (entryAt c j).filter (visE en c.window t.seq t.pos) := by
+  unfold maskBitE entryAt entryOf visE
+  generalize c.cells.getD j Cell.empty = cell
+  generalize c.rows.getD j default = row
+  obtain ⟨pos, seqs⟩ := cell
+  by_cases h0 : seqs = []
+  · subst h0; simp
+  · simp only [h0, if_false, Option.filter]
+
 /-! ### invariants -/
 
 theorem length_mapFrom (f : Nat → Cell → Cell) (i : Nat) (l : List Cell) : (mapFrom f i l).length = l.length := by
@@ -530,6 +540,11 @@ theorem place_length (c : Cache) (idx : Nat) (toks : List Tok) : (place c idx to
   | cons t ts ih => simp [place, ih, placeTok]
 
 theorem place_window (c : Cache) (idx : Nat) (toks : List Tok) : (place c idx toks).window = c.window := by
+  induction toks generalizing c idx with
+  | nil => rfl
+  | cons t ts ih => simp [place, ih, placeTok]
+
+theorem place_except (c : Cache) (idx : Nat) (toks : List Tok) : (place c idx toks).except = c.except := by
   induction toks generalizing c idx with
   | nil => rfl
   | cons t ts ih => simp [place, ih, placeTok]
